@@ -46,7 +46,7 @@ TEXTS = {
  "C14": {
   "level": "Lean theorems over the search model, for every game / position / limit combination / clock / stop point: the reported depths are 1,2,...,k with no gap or repeat; "
            "an unlimited depth-N search reports exactly depths 1..N; every principal variation is a sequence of legal moves (the cache only ever stores moves generated in the "
-           "position of the key, under KeyMoves). The search model is tied to the code trace-exactly (info lines, bestmove, every cache insert, counters, cache checksum) on generated "
+           "position of the key, under KeyMoves) and, at a root with a legal move, has at least one move, legal under the rules of chess (no key hypothesis needed). The search model is tied to the code trace-exactly (info lines, bestmove, every cache insert, counters, cache checksum) on generated "
            "cases incl. interrupted and cache-reusing searches; info lines of the implementation are also checked against the UCI token grammar and each PV is replayed on the rules spec.",
   "note": "Trusted: Lean kernel, the hand-written search model (validated trace-exactly on every explored case), harness/driver, KeyMoves hypothesis for pv_legal. time/nps tokens are not modelled.",
   "technique": "Lean 4 proof (induction over iterations and over the recursion with a frame invariant) + trace-exact differential correspondence",
